@@ -28,11 +28,16 @@ SEEDS = [
     "class A : A { let x = 1; }",
     "def d { int x = !foldl(0, [1], acc, v, !add(acc, v)); list<int> l = !foreach(v, [1], v); }",
     "class P<string s = \"a\" # \"b\"> { string t = s # NAME; } def : P; def : P<\"x\">;",
+    # names the indexer makes up itself, spelled out by the user
+    "class Foo; def : Foo; def user { Foo f = anonymous_0; }",
+    "class Foo; multiclass M { def _x; } def anonymous_1 : Foo; defm : M; def : Foo { int n = 1; } def user { Foo f = anonymous_1; list<Foo> l = [anonymous_1, anonymous_0]; }",
+    "class Reg; multiclass MC { def _lo : Reg; } defm D : MC; class Use<int n, Reg r = D_lo>; def X : Use<1, D_lo> { Reg q = D_lo; }",
+    "def { int w = 1; } def { int w = 2; } defvar a = anonymous_0; defvar b = anonymous_1.w; def anonymous_0; defvar c = anonymous_0;",
 ]
 
 
 PRELUDE = ("class A; class B<int x, int y = 1> { int f = x; } class Foo { int v1; string _t; } class Bar : Foo { let v1 = 2; }\n"
-           "def Inst; def Reg : Bar; multiclass M<int i> { def _q { int y = i; } } defvar v1 = 1; defset list<A> x = { def i : A; }\n")
+           "def Inst; def Reg : Bar; multiclass M<int i> { def _q { int y = i; } } defvar v1 = 1; defset list<A> x = { def i : A; } def : Foo { int af = 1; } defm : M<1>; defm m : M<2>;\n")
 
 
 def workspaces(ck):
@@ -53,7 +58,8 @@ def workspaces(ck):
     # include graphs with cycles (through the root too), self-includes and diamonds; the same few names are declared and
     # used before and after the include statements of every file
     frags = ["class A;", "class B : A;", "class A { int f = v; }", "defvar v = 1;", "defvar w = v;", "def d : A;", "def e : B { int g = v; }",
-             "class B<int v> : A { int h = v; }", "defvar v = w;", "multiclass A { def x : B; }", "defm m : A;", "def d;", "class d : d;"]
+             "class B<int v> : A { int h = v; }", "defvar v = w;", "multiclass A { def x : B; }", "defm m : A;", "def d;", "class d : d;",
+             "def : A;", "def : B { int n = v; }", "def u : A { A f = anonymous_0; }", "defvar z = anonymous_1;", "defm : A;", "def anonymous_0;"]
     names = ["/main.td", "/sub.td", "/dir/c.td"]
     for _ in range(200 if quick else 15000):
         nfiles = rng.choice([1, 2, 2, 3])
